@@ -453,15 +453,20 @@ impl Sut {
                 }
             }
             Op::Detach(x) => {
-                if !self.usable(*x) || !self.model.nodes[*x].alive {
+                if !self.usable(*x) {
                     return Ok(false);
                 }
                 let id = self.ids[*x];
+                let alive = self.model.nodes[*x].alive;
                 let arena = &mut self.arena;
                 if catch_unwind(AssertUnwindSafe(|| id.detach(arena))).is_err() {
-                    return Err(v(&["C05", "C03"], format!("detach {} panicked", x)));
+                    return Err(v(if alive { &["C05", "C03"] } else { &["C05", "C12"] }, format!("detach {} panicked", x)));
                 }
-                self.model.detach(*x);
+                if alive {
+                    self.model.detach(*x);
+                }
+                // (a removed, not yet recycled node has no links: detaching it must change nothing; the
+                // structural comparison with the model after this step checks exactly that)
             }
             Op::Remove(x) | Op::RemoveSubtree(x) => {
                 if !self.usable(*x) || !self.model.nodes[*x].alive {
@@ -1023,6 +1028,10 @@ fn main() {
             (8, "new;new;new;new;new;new;new;new; checked_append 0 1; checked_append 1 2; checked_append 2 3; checked_append 3 4; checked_append 4 5; checked_append 0 6; checked_insert_after 0 7"),
             (7, "new;new;new;new;new;new;new; checked_prepend 0 1; checked_prepend 0 2; checked_prepend 0 3; checked_insert_before 3 4; checked_prepend 4 5; checked_insert_before 5 6"),
             (8, "new;new;new;new;new;new;new;new; checked_append 0 1; checked_append 0 2; checked_append 1 3; checked_append 1 4; checked_append 2 5; checked_append 2 6; checked_append 6 7; remove 0"),
+            // removed nodes whose slots are partly recycled, then more structure on top
+            (5, "new;new;new;new; checked_append 0 1; checked_append 0 2; remove_subtree 0; new"),
+            (7, "new;new;new;new;new;new; checked_append 0 1; checked_append 1 2; checked_append 1 3; checked_append 1 4; remove 1; new; append_value 6"),
+            (7, "new;new;new;new;new;new; checked_append 0 1; checked_append 0 2; checked_append 0 3; checked_append 2 4; remove_subtree 2; new; append_value 6"),
         ];
         let shaped_budget = budget / 4;
         let t1 = Instant::now();
